@@ -7,6 +7,7 @@ import CollectionsC.Proofs.PTreeWfB
 import CollectionsC.Proofs.PTreeDeleteStepR
 import CollectionsC.Proofs.PTreeRemoveWF
 import CollectionsC.Proofs.PTreeStep
+import CollectionsC.Proofs.PTreeSetStep
 /-! # C03 / C17 — the pointer level of `cc_treetable.c`
 
 `Model/PTree.lean` is the tree as the C code sees it: a heap of nodes `{ key, value, color, left, right,
@@ -71,13 +72,17 @@ the ids — the inductive tree of `Model/TreeTable.lean`.  `WF st := ∃ t, Repr
 * `remove_all_wf` (`tree_destroy`: exactly the tree's nodes leave the heap, the sentinel stays),
   `iterator_enumerates` (whole-walk theorem), `descent_comparisons` (C17's comparator bound for the pointer-level
   descent).
+* `set_phistory_refines` (the `cc_treeset` wrapper behaves like an ideal ordered set), `pstep_ledger` /
+  `phistory_ledger` (node ledger: exactly the allocated / removed node; `size` = number of nodes = number of keys),
+  `reachable_height_bound` (C17's height bound in every reachable pointer-level state).
 * `wfB_sound`: the Bool check the driver evaluates after every call (flag `inv`) implies `WF`.
 
 **Not proved, compared by the harness only**:
 * fuel independence of the delete loop (its theorem holds for every fuel ≥ the depth of `x`, which covers the
   `size + 2` of the code); `cc_treetable_destroy`'s last two frees (sentinel, header) and the constructor's three
   allocations are not in `PT` (the allocation ledger is part of the inductive model's state, `C06Tree`/`C08Tree`);
-  the iterator's `iter_remove` status codes; the set wrapper `cc_treeset` at the pointer level.
+  the iterator's `iter_remove` status codes; liveness of the tree nodes as heap entries is checked at run time
+  (`wfB`), the theorems track node *ids* (a freed node is proved absent from the heap, a tree node is not proved present).
 * `T'` of `rebalance_after_insert_rb` is not identified with `Tree.ins` of the inductive model (only: same
   nodes, same in-order content, `RB`); C17's height/comparison bounds stay with `Proofs/TreeTableRB*` on the
   inductive model and the runtime check `toTree pt = inductive tree`.
@@ -836,6 +841,50 @@ theorem descent_count_is_model_count (cmp : Nat → Nat → Int) (st : PT) (T : 
   have hf : T.height ≤ st.size + 1 := by have := ITree.height_le_ids T; rw [h.size]; omega
   rw [h.toTree, h.root]; exact descentCount_rep cmp k h.rep _ hf
 
+/-! ## The set wrapper, the ledger of nodes, the height bound — on the pointer-level model -/
+
+/-- **`cc_treeset` at the pointer level behaves like an ideal ordered set**: any history of add / remove / contains /
+first / last / greater_than / lesser_than / foreach / size / remove_all (`setRun`: the wrapped table call with the
+dummy value, `KEY_NOT_FOUND` reported as `VALUE_NOT_FOUND`), under every refusal schedule, returns call by call what
+the C API hands back for the ideal set's answers (`OrdSet.apiOuts`; as recorded in C03.lean, `cc_treeset_remove`
+stores the table's value — the dummy — in `*out`, not the element: an observation outside C03's wording), and ends
+in a well-formed heap whose keys are the ideal set's elements -/
+theorem set_phistory_refines (cmp : Nat → Nat → Int) (hto : TotalOrder cmp) (ops : List (OrdSet.Op × Bool)) :
+    (setRun cmp PTree.new ops).1 = OrdSet.apiOuts (ops.map (·.1)) (OrdSet.run cmp [] ops).1 ∧
+    ∃ T', Represents (setRun cmp PTree.new ops).2 T' ∧ T'.erase.toList = (OrdSet.run cmp [] ops).2 ∧
+      Tree.BST cmp T'.erase ∧ Tree.RB T'.erase ∧ AllDummy T'.erase.toList :=
+  set_phistory_refines_new cmp hto ops
+
+/-- **the ledger, one call** (C06 for the tree at the pointer level): the nodes of the represented tree change by
+exactly what the call allocates or frees — nothing; the one node with the fresh allocation serial (`add` of an
+absent key, granted); exactly the removed node, which has left the heap; or all of them (`remove_all`) — and `size`
+is the number of nodes -/
+theorem pstep_ledger (cmp : Nat → Nat → Int) (hto : TotalOrder cmp) (st : PT) (T : ITree) (h : Represents st T)
+    (hb : Tree.BST cmp T.erase) (hrb : Tree.RB T.erase) (op : OrdMap.Op) (ok : Bool) :
+    ∃ T', Represents (PTree.step cmp st op ok).2 T' ∧ (PTree.step cmp st op ok).2.size = T'.ids.length ∧
+      (T'.ids.Perm T.ids ∨
+       T'.ids.Perm (st.fresh :: T.ids) ∨
+       (∃ z, (z :: T'.ids).Perm T.ids ∧ (PTree.step cmp st op ok).2.heap.m.contains z = false) ∨
+       (T' = .nil ∧ ∀ i ∈ T.ids, (PTree.step cmp st op ok).2.heap.m.contains i = false)) :=
+  PTree.pstep_ledger cmp hto h hb hrb op ok
+
+/-- **the ledger along histories**: at every point of every history from the constructor, under every refusal
+schedule, `size` = number of nodes of the represented tree = number of keys of the ideal map; all node ids are
+positive and below the allocation serial (the sentinel, id 0, is never freed by these calls; the header and the
+constructor's / `destroy`'s blocks are in the inductive model's ledger, `C06Tree`) -/
+theorem phistory_ledger (cmp : Nat → Nat → Int) (hto : TotalOrder cmp) (ops : List (OrdMap.Op × Bool)) :
+    ∃ T', Represents (PTree.run cmp PTree.new ops).2 T' ∧
+      (PTree.run cmp PTree.new ops).2.size = T'.ids.length ∧
+      (PTree.run cmp PTree.new ops).2.size = (OrdMap.run cmp [] ops).2.length ∧
+      (∀ i ∈ T'.ids, 0 < i ∧ i < (PTree.run cmp PTree.new ops).2.fresh) :=
+  PTree.phistory_ledger cmp hto ops
+
+/-- **C17 on `PT`: every reachable pointer-level state is balanced** — height at most `2·⌊log₂(size+1)⌋` after any
+history, under every refusal schedule -/
+theorem reachable_height_bound (cmp : Nat → Nat → Int) (hto : TotalOrder cmp) (ops : List (OrdMap.Op × Bool)) :
+    (toTree (PTree.run cmp PTree.new ops).2).height ≤ 2 * Nat.log2 ((PTree.run cmp PTree.new ops).2.size + 1) :=
+  PTree.reachable_height_bound cmp hto ops
+
 /-! ## Non-vacuity of the hypotheses -/
 
 /-- the numeric comparator -/
@@ -976,5 +1025,15 @@ example :
 `descent_comparisons`; its iterator walk is the expected list -/
 example : iterWalk ex5 (ex5.size + 1) (iterInit ex5) = [(20, 0), (30, 0), (50, 0), (60, 0), (80, 0)] := by
   rw [(iterator_enumerates ex5 T5 ex5_represents).1, ex5_represents.toTree]; decide
+
+/-- the set wrapper on a concrete history (re-adding a member, removing a member and a non-member, a refused add):
+the pointer-level results are those of the ideal set as the API hands them back, e.g. `remove 5` → status OK with the
+dummy 1 in `*out`, `remove 9` → `CC_ERR_VALUE_NOT_FOUND` -/
+example :
+    ((setRun numCmp PTree.new [(.add 5, false), (.add 3, false), (.add 5, false), (.add 7, true), (.remove 5, false),
+      (.remove 9, false), (.contains 3, false), (.first, false), (.size, false)]).1.map (fun o => (o.st, o.val))) =
+    [(some .ok, none), (some .ok, none), (some .ok, none), (some .errAlloc, none), (some .ok, some 1),
+     (some .errValueNotFound, none), (none, some 1), (some .ok, some 3), (none, some 1)] := by
+  rw [(set_phistory_refines numCmp numCmp_total _).1]; decide
 
 end CC.Properties.C03PTree
